@@ -136,6 +136,8 @@ def impl(case):
         def commit(new_exts):
             nonlocal exts, ncommit
             if new_exts is not None:
+                if exts and not new_exts:
+                    tags.append("exts-cleared-by-empty-override")
                 rec_commit(manifest_exts=new_exts)
                 exts = new_exts
             else:
@@ -363,16 +365,22 @@ def patch_ops(rng, kind):
     return [H.rand_op(rng, PATHS, allow_copy=False) for _ in range(k + 1)]
 
 
+def ext_override(rng, j):
+    """an explicitly provided manifest_exts value: any dict is an override, the empty one (which clears inherited
+    extensions) and ones with falsy / nested values included"""
+    return rng.choice([{"k": j}, {"k": j}, {}, {}, {"k": j, "z": []}, {"e": {}}, {"k": 0}])
+
+
 def boundary(rng, kind=None, j=0):
     """a way of ending a patch: plain commit, commit overriding the extensions, committing close +
     reopen, or a commit followed by a commit attempt that is refused"""
     if kind == "exts-only":
-        return ["patch", {"k": j}]
+        return ["patch", ext_override(rng, j)]
     r = rng.random()
     if r < 0.35:
         return ["patch"]
     if r < 0.55:
-        return ["patch", {"k": j}]
+        return ["patch", ext_override(rng, j)]
     if r < 0.7:
         return ["reopen", "commit"]
     return ["badcommit", rng.choice(BAD_COMMITS[:4])]
@@ -390,7 +398,7 @@ def kinds_case(rng, kinds, bad=None):
         ops += w
         if j < len(kinds) - 1:
             ops.append(["badcommit", bad] if bad not in (None, "kwarg-open") and rng.random() < 0.6 else boundary(rng, kd, j + 1))
-    final = {"final": 1} if kinds and kinds[-1] == "exts-only" else rng.choice([None, None, {"final": 1}])
+    final = rng.choice([{"final": 1}, {}]) if kinds and kinds[-1] == "exts-only" else rng.choice([None, None, {"final": 1}, {}])
     return dict(ops=ops, update=rand_update(rng, rng.randrange(1, 5)), final_exts=final, ro_commit=bad == "readonly" or rng.random() < 0.3)
 
 
@@ -436,7 +444,7 @@ def gen_cases(ctx, sweep=True):
                     ops.append(["reopen", "commit"])
                 if rng.random() < 0.4:
                     ops += [H.rand_op(rng, ["/a", "/b"], allow_copy=False), ["reopen", "uncommitted"]]
-            cases.append(dict(ops=ops, update=rand_update(rng, rng.randrange(1, 5)), final_exts=rng.choice([None, None, None, {"final": 1}])))
+            cases.append(dict(ops=ops, update=rand_update(rng, rng.randrange(1, 5)), final_exts=rng.choice([None, None, None, {"final": 1}, {}])))
             continue
         for op in H.rand_history(rng, rng.randrange(3, 22), boundary_p=rng.choice([0.1, 0.25])):
             if op[0] == "patch":
@@ -452,7 +460,7 @@ def gen_cases(ctx, sweep=True):
             else:
                 ops.append(op)
         cases.append(dict(ops=ops, update=rand_update(rng, rng.randrange(1, 9)),
-                          final_exts=rng.choice([None, None, {"final": 1}]), ro_commit=rng.random() < 0.3))
+                          final_exts=rng.choice([None, None, {"final": 1}, {}]), ro_commit=rng.random() < 0.3))
         if rng.random() < 0.25:
             cases[-1]["stubset"] = dict(patches=[[H.rand_op(rng, PATHS, allow_copy=False)] for _ in range(rng.randrange(0, 4))], reopen=list(MU.STUB_OPENINGS))
     return cases
